@@ -1378,6 +1378,22 @@ def m_eq(e, args, info):
         if da == 0:
             return True
         return m_eq(e, [a.p[1][0], b.p[1][0]], info)
+    if isinstance(a, (bool, int)) and isinstance(b, (bool, int)):
+        return a == b
+    if z3.is_expr(a) or z3.is_expr(b):
+        return a == b
+    if isinstance(a, Agg) and isinstance(b, Agg) and a.ty == b.ty and (a.ty is None or a.ty == '[]' or a.ty.startswith(('(', '['))):
+        # arrays and tuples: element-wise
+        conj = []
+        if len(a.f) != len(b.f):
+            return False
+        for x, y in zip(a.f, b.f):
+            r = m_eq(e, [x, y], info)
+            if r is False:
+                return False
+            if r is not True:
+                conj.append(r)
+        return True if not conj else (conj[0] if len(conj) == 1 else z3.And(conj))
     if isinstance(a, VecV) and isinstance(b, VecV):
         if len(a.items) != len(b.items):
             return False
